@@ -435,6 +435,17 @@ Section RepairAll.
   Definition cf_search (nosearch : bool) (fs0 : list (option fsdisk)) (failed : list fent) (v : list bid) : Prop :=
     forall e b, In e failed -> search_fetch hashf bs nosearch fs0 e = Some b -> b = vnth v (fe_idx e).
 
+  (* whatever the files searched: a block fetched by state_search_fetch hashes to the recorded hash of the entry *)
+  Lemma search_fetch_hash nosearch fsx e b :
+    search_fetch hashf bs nosearch fsx e = Some b ->
+    exists f i, fe_file e = Some (f, i) /\ hval_eqb (hashf b (block_len bs (cf_size f) i)) (fe_hash e) = true.
+  Proof.
+    unfold search_fetch. destruct nosearch; [discriminate|]. destruct (fe_file e) as [[f i]|]; [|discriminate].
+    match goal with |- context [find ?p ?l] => destruct (find p l) as [g|] eqn:E end; [|discriminate].
+    intro H. injection H as H. subst b. apply find_some in E. destruct E as [_ E].
+    apply andb_true_iff in E. destruct E as [_ E]. exists f, i. split; [reflexivity | exact E].
+  Qed.
+
   Lemma chg_heuristic_blk pos buf e : fe_state e = Some SBlk -> chg_heuristic hashf padz bs reduced pos buf e = (e, []).
   Proof. intro H. unfold chg_heuristic, fe_is. rewrite H. simpl. rewrite andb_false_r. reflexivity. Qed.
 
